@@ -198,6 +198,41 @@ pub fn mk_rule<N: Analysis<Ar> + 'static>(r: &RuleSpec) -> Rewrite<Ar, N> {
     }
 }
 
+/// the same rule written as a multi-pattern rule (`?out == node, ...` found by multi_ematch, the matched class united with
+/// the instantiated right side): a legal, less travelled road into apply_rewrites.  Only for e-graphs without analysis
+/// (the library offers multi_ematch there only) and only for the rules listed.
+pub fn multi_form(name: &str) -> Option<(&'static str, &'static str)> {
+    Some(match name {
+        "sub-self" => ("?out == (sub ?a ?a)", "0"),
+        "add-comm" => ("?out == (add ?a ?b)", "(add ?b ?a)"),
+        "mul-comm" => ("?out == (mul ?a ?b)", "(mul ?b ?a)"),
+        "add-zero" => ("?out == (add ?a ?z), ?z == 0", "?a"),
+        "mul-zero" => ("?out == (mul ?a ?z), ?z == 0", "0"),
+        "neg-add" => ("?n == (neg ?a), ?out == (add ?a ?n)", "0"),
+        "distrib" => ("?s == (add ?b ?c), ?out == (mul ?a ?s)", "(add (mul ?a ?b) (mul ?a ?c))"),
+        _ => return None,
+    })
+}
+
+pub fn mk_rule_multi(r: &RuleSpec) -> Option<Rewrite<Ar, ()>> {
+    let (mp, rhs) = multi_form(r.name)?;
+    let pat: MultiPattern<Ar> = MultiPattern::parse(mp).expect("multi-pattern form parses");
+    let lhs: Pattern<Ar> = Pattern::parse("?out").unwrap();
+    let rhs: Pattern<Ar> = Pattern::parse(rhs).unwrap();
+    let name = r.name.to_string();
+    Some(
+        RewriteT {
+            searcher: Box::new(move |eg: &EGraph<Ar>| multi_ematch(&pat, eg)),
+            applier: Box::new(move |substs: Vec<Subst>, eg: &mut EGraph<Ar>| {
+                for s in substs {
+                    eg.union_instantiations(&lhs, &rhs, &s, Some(name.clone()));
+                }
+            }),
+        }
+        .into(),
+    )
+}
+
 // ---- harness-side pattern terms for the rule self-test -------------------------------------------
 
 #[derive(Clone, Debug)]
